@@ -523,6 +523,7 @@ func (self *Fork) reset() {
 
 func (self *Fork) resetPartial() error {
 	self.lastPrint = time.Now()
+	splitState, _ := self.split_metadata.getState()
 	if err := self.split_metadata.checkedReset(); err != nil {
 		return err
 	}
@@ -533,6 +534,12 @@ func (self *Fork) resetPartial() error {
 		if err := chunk.metadata.checkedReset(); err != nil {
 			return err
 		}
+	}
+	if splitState == Failed && len(self.chunks) > 0 {
+		// These were read from the _stage_defs which the failed split
+		// attempt left behind.  The next attempt defines its own.
+		self.chunks = nil
+		self.metadatasCache = nil
 	}
 	return nil
 }
